@@ -222,6 +222,21 @@ def execute(history, contents, pathids):
                         tgt = (vals.shape[0] + 2, vals.shape[1] + 1)
                         rs = aa.Mask2D.from_fits(file_path=fp, pixel_scales=sc, hdu=0, resized_mask_shape=tgt)
                         extra = extra and np.array_equal(np.asarray(rs).astype(bool), np.asarray(o.resized_from(new_shape=tgt)).astype(bool))
+                        # both options together: the booleans read back are inverted, THEN resized (padding is unmasked = False,
+                        # as for the plain resize), for an enlarging and for a trimming target
+                        inv_o = aa.Mask2D(mask=~vals, pixel_scales=sc)
+                        for tgt2 in (tgt, (max(1, vals.shape[0] - 1), vals.shape[1] + 2), (max(1, vals.shape[0] - 1), max(1, vals.shape[1] - 1))):
+                            both_ = aa.Mask2D.from_fits(file_path=fp, pixel_scales=sc, hdu=0, invert=True, resized_mask_shape=tgt2)
+                            extra = extra and np.array_equal(np.asarray(both_).astype(bool), np.asarray(inv_o.resized_from(new_shape=tgt2)).astype(bool))
+                    # history: the file is loaded again with OTHER explicit pixel scales (the caller's word beats the stored
+                    # card), the loaded object is output once more and read back: values, orientation and the object's own
+                    # pixel scales survive (cards of the file it was loaded from do not leak into what it writes)
+                    other = (sc[0] * 2.0, sc[1] * 2.0) if sc[0] == sc[1] else (sc[1], sc[0])
+                    o2 = _read(ev["kind"], fp, other)
+                    o3 = _hdu_in(ev["kind"], o2.hdu_for_output)
+                    got3 = tuple(float(x) for x in o3.pixel_scales)
+                    want3 = other if ev["kind"] not in ("Array1D", "Mask1D") else (other[0],)
+                    extra = extra and np.array_equal(_native_values(ev["kind"], o3), vals) and got3 == tuple(float(x) for x in want3)
                     r["cid"], r["flipped"], r["extra_ok"] = cid, bool(fl), bool(extra)
                 except Exception as e:
                     r["cid"], r["flipped"], r["extra_ok"], r["err"] = "error:" + type(e).__name__, False, True, str(e)[:100]
